@@ -73,6 +73,26 @@ func (c11) Gen(seed uint64, idx int, tier string) *Scenario {
 	class := prng.Pick(r, inputClasses)
 	sc.Class = class
 	src, p, lexAt := genInput(r, class, tier)
+	if r.Chance(1, 100) {
+		// "every parser outcome" includes the ones reached far from the top: a thousand and more
+		// open parentheses, signs, negations or blocks, closed properly, left open, or cut off -
+		// with tokens still to come behind the point where a parser might give up
+		n := prng.Pick(r, []int{600, 1001, 1030, 2100})
+		open, clos := prng.Pick(r, [][2]string{{"(", ")"}, {"-", ""}, {"not ", ""}, {"def b {\n", "}\n"}, {"(-", ")"}})[0], ""
+		for _, pr := range [][2]string{{"(", ")"}, {"-", ""}, {"not ", ""}, {"def b {\n", "}\n"}, {"(-", ")"}} {
+			if pr[0] == open {
+				clos = pr[1]
+			}
+		}
+		body := "1"
+		head, tail := "print ", "\nprint 2\nprint 3\nvar z = 4\nprint z + 5\n"
+		if strings.HasPrefix(open, "def") {
+			head, body = "", "x = 1\n"
+		}
+		k := prng.Pick(r, []int{n, n, n / 2, 0})
+		src, p, lexAt = []byte(head+strings.Repeat(open, n)+body+strings.Repeat(clos, k)+tail), nil, -1
+		sc.Class = "deep"
+	}
 	sc.Src = src
 	if lexAt >= 0 {
 		sc.SetInt("lexat", lexAt)
@@ -222,8 +242,32 @@ func checkPipeBasics(t *testing.T, prop string, sc *Scenario, res *PipeResult, o
 	}
 }
 
+var c11HistFirst bool
+
 func (c11) Run(t *testing.T, sc *Scenario) *Outcome {
 	o := &Outcome{}
+	switch {
+	case sc.Int("history", 0) == 1:
+		c11History(sc, o) // a saved scenario of the history check (c11hist.go)
+	case !c11HistFirst:
+		// before this worker process has entered any bubble: whatever the library keeps between
+		// calls is still untouched by the simulator
+		c11HistFirst = true
+		for i := 0; i < 4 && len(o.Violations) == 0; i++ {
+			c := sc.Clone()
+			c.SetInt("history", 1)
+			c.SetInt("histidx", sc.Idx*4+i)
+			c11History(c, o)
+		}
+	case sc.Idx%16 == 3:
+		c := sc.Clone()
+		c.SetInt("history", 1)
+		c.SetInt("histidx", sc.Idx)
+		c11History(c, o) // the same properties for a call that is not the process's first
+	}
+	if len(o.Violations) > 0 {
+		return o
+	}
 	res := RunPipe(t, sc, false, false)
 	o.Steps = res.Steps
 	fs := res.FS
